@@ -20,7 +20,7 @@ EXTENDS Unparse, Json
 CONSTANT MaxPre
 
 NLT == Text(<<"NL">>)
-ItemNames == {"text", "blank", "crlf", "tag", "mltag", "dqstr", "bqstr", "mlcmt", "emit", "block", "loop", "cmtline", "bslnl", "bslnlbq"}
+ItemNames == {"text", "blank", "crlf", "tag", "mltag", "dqstr", "bqstr", "mlcmt", "emit", "block", "loop", "cmtline", "bslnl", "bslnlbq", "escnl", "escbslnl"}
 Item(n) ==
   CASE n = "text"  -> <<Text(<<"a", "NL">>)>>
     [] n = "blank" -> <<Text(<<"NL", "NL">>)>>
@@ -32,6 +32,9 @@ Item(n) ==
     \* a line break directly after a backslash inside a string (the backslash escapes nothing but a quote)
     [] n = "bslnl" -> <<Let("s", Str(<<"x", "BSL", "NL", "y">>)), NLT>>
     [] n = "bslnlbq" -> <<Let("r", BStr(<<"BSL", "NL", "BSL", "NL">>)), NLT>>
+    \* literal text that shows plush code: an escaped tag opener directly followed by a line break; an escaped backslash before a live tag
+    [] n = "escnl" -> <<EText(<<"BSL", "<", "PCT", "NL", "l", "e", "t", "NL", "PCT", ">", "NL">>, <<"<", "PCT", "NL", "l", "e", "t", "NL", "PCT", ">", "NL">>)>>
+    [] n = "escbslnl" -> <<EText(<<"NL", "BSL", "BSL">>, <<"NL", "BSL">>), Emit(IntL(7)), NLT>>
     [] n = "mlcmt" -> <<Cmt(<<"c", "NL", "d">>), NLT>>
     [] n = "emit"  -> <<Emit(Str(<<"v">>)), Text(<<"NL">>)>>
     [] n = "block" -> <<Emit(If(Bool(TRUE), <<Text(<<"NL", "i", "NL">>), Emit(IntL(4)), NLT>>)), NLT>>
